@@ -65,6 +65,10 @@ SWAP = {("sym", "bw"): NF.sym("bx"), ("sym", "bx"): NF.sym("bw"),
         ("sym", "iw"): NF.sym("ix"), ("sym", "ix"): NF.sym("iw")}
 
 
+def _show_out(o):
+  return tuple(show(v) if isinstance(v, NF) else v for v in o)
+
+
 def build(repo, kw, kx):
   pe = PE(repo)
   mf = repo.module(MF)
@@ -85,7 +89,8 @@ def run(rep, repo, tier):
   rep.unit(unit_t)
   rep.trusted.append("two's-complement value ranges of the qtools types "
                      "(bits, int_bits, is_signed); po2 exponent range as "
-                     "reported by the repository's get_min_max_exp")
+                     "reported by the repository's get_min_max_exp, itself "
+                     "checked against the qkeras quantizers by R8")
   rep.assumptions.append("representability for power-of-two cells beyond the "
                          "exponent bookkeeping and max_value clamps is not "
                          "decided; -1 x most-negative code in mux cells is "
@@ -239,6 +244,57 @@ def run(rep, repo, tier):
       rep.sample({"call": cfg, "impl": impl, "bits": show(bits),
                   "int_bits": show(ib), "is_signed": bool(sg)})
   rep.extra["operand_kind_pairs"] = len(results)
+  # R7 sibling operand classes (StochasticBinary, StochasticTernary,
+  # Bernoulli, QuantizedTanh, QuantizedUlaw, ...) describe the same value
+  # sets as the class they derive from, so the factory must give them the
+  # same implementation and output type, in both operand positions
+  sibs = ta.sibling_operands(repo)
+  rep.extra["sibling_operand_classes"] = ["%s~%s" % sk for sk in sibs]
+  for cname, kind in sibs:
+    ref_q = ta.make_operand(PE(repo), repo, kind, "w")
+    sib_q = ta.make_sibling(PE(repo), repo, cname, kind, "w")
+    if sib_q.attrs.get("mode") != ref_q.attrs.get("mode"):
+      # e.g. Bernoulli derives from Binary but is its 0/1 variant
+      alt = [k for k in ta.KINDS if ta.KINDS[k][2] == sib_q.attrs.get("mode")
+             and ta.KINDS[k][1] is None]
+      if len(alt) != 1:
+        continue
+      kind = alt[0]
+    for kp in kinds:
+      for pos in ("weight", "input"):
+        outs = []
+        for use_sib in (False, True):
+          pe3 = PE(repo)
+          fac3 = pe3.call(pe3.lookup_global("MultiplierFactory", mf), [], {})
+          a = ta.make_sibling(pe3, repo, cname, kind, "w" if pos == "weight"
+                              else "x") if use_sib else ta.make_operand(
+                                  pe3, repo, kind, "w" if pos == "weight"
+                                  else "x")
+          b = ta.make_operand(pe3, repo, kp, "x" if pos == "weight" else "w")
+          args = [a, b] if pos == "weight" else [b, a]
+          try:
+            m3 = pe3.call(pe3.getattr(fac3, "make_multiplier"), args, {})
+            o3 = m3.attrs.get("output")
+            outs.append((m3.cls.name, o3.attrs.get("mode"),
+                         ta.field(o3, "bits", fw),
+                         ta.field(o3, "int_bits", fw),
+                         bool(o3.attrs.get("is_signed"))))
+          except PyRaise as e:
+            outs.append(("raises %s" % e.exc_name,))
+        cfg = "make_multiplier(%s=%s, other=%s)" % (pos, cname, kp)
+        unit = "qkeras/qtools/quantized_operators/multiplier_impl.py::%s" % (
+            outs[0][0] if not outs[0][0].startswith("raises") else "factory")
+        rep.check(outs[0] == outs[1], "R7", unit,
+                  "sibling-operand-class-treated-differently",
+                  "%s gives %s, the same call with the %s class it derives "
+                  "from gives %s" % (cfg, _show_out(outs[1]), kind,
+                                     _show_out(outs[0])), instance=cfg)
+  rep.require_instances("R7", 40)
+  # R8: what the shifter cells trust (get_min_max_exp) is checked against
+  # the qkeras po2 quantizers' own exponent sets (rule shared with C18)
+  from .c18 import rule_po2_exponents
+  rule_po2_exponents(rep, repo, tier, rule="R8")
+  rep.require_instances("R8", 200)
   rep.require_instances("R1", 36)
   rep.require_instances("R2", 60)
   rep.require_instances("R3", 36)
